@@ -42,10 +42,18 @@ func histories(r *core.Run, cfgs []HistCfg) []*core.Trace {
 	return traces
 }
 
-// judgeTx validates traces against TxTrace.tla.
-func judgeTx(r *core.Run, cfgName string, traces []*core.Trace, faults bool) {
+// judgeTx validates traces against TxTrace.tla (all properties are evaluated and recorded as
+// deviations; the running check reports the ones that belong to it).
+func judgeTx(r *core.Run, traces []*core.Trace, o reportOpts) {
+	var clean []*core.Trace
+	for _, t := range traces {
+		if t != nil {
+			clean = append(clean, t)
+		}
+	}
+	traces = clean
 	// split into several TLC runs that execute in parallel
-	const shards = 6
+	const shards = 8
 	var wg sync.WaitGroup
 	var mu sync.Mutex
 	var all []core.Reject
@@ -60,14 +68,14 @@ func judgeTx(r *core.Run, cfgName string, traces []*core.Trace, faults bool) {
 		wg.Add(1)
 		go func(part []*core.Trace) {
 			defer wg.Done()
-			rej := r.Judge(core.JudgeOpts{Module: "TxTrace", Config: cfgName, Timeout: 30 * time.Minute, HeapMB: 3000, Batch: 25000}, part)
+			rej := r.Judge(core.JudgeOpts{Module: "TxTrace", Config: "TxTrace.cfg", Timeout: 30 * time.Minute, HeapMB: 3000, Batch: 25000, MaxRej: 50}, part)
 			mu.Lock()
 			all = append(all, rej...)
 			mu.Unlock()
 		}(part)
 	}
 	wg.Wait()
-	ReportRejects(r, all, faults)
+	Report(r, all, o)
 }
 
 // baseCfgs enumerates the configuration dimensions of the store.
@@ -112,7 +120,7 @@ func CheckC03(r *core.Run) {
 		}
 		r.AddSample(map[string]interface{}{"cfg": traces[0].Meta, "first_events": traces[0].Events[1:n]})
 	}
-	judgeTx(r, "TxTrace_C03.cfg", traces, false)
+	judgeTx(r, traces, reportOpts{})
 }
 
 func sampleTrace(r *core.Run, traces []*core.Trace) {
@@ -161,7 +169,7 @@ func CheckC04(r *core.Run) {
 	})
 	traces := histories(r, cfgs)
 	sampleTrace(r, traces)
-	judgeTx(r, "TxTrace_C04.cfg", traces, false)
+	judgeTx(r, traces, reportOpts{})
 }
 
 // CheckC07: abort leaves no trace.
@@ -187,7 +195,7 @@ func CheckC07(r *core.Run) {
 	})
 	traces := histories(r, cfgs)
 	sampleTrace(r, traces)
-	judgeTx(r, "TxTrace_C07.cfg", traces, false)
+	judgeTx(r, traces, reportOpts{})
 }
 
 // CheckC11: space conservation, size limit, stats.
@@ -210,7 +218,7 @@ func CheckC11(r *core.Run) {
 	})
 	traces := histories(r, cfgs)
 	sampleTrace(r, traces)
-	judgeTx(r, "TxTrace_C11.cfg", traces, false)
+	judgeTx(r, traces, reportOpts{})
 }
 
 // CheckC10: close and reopen is lossless.
@@ -229,5 +237,5 @@ func CheckC10(r *core.Run) {
 		r.AddEvals(int64(len(t.Events)))
 	}
 	traces = append(traces, scen...)
-	judgeTx(r, "TxTrace_C10.cfg", traces, false)
+	judgeTx(r, traces, reportOpts{})
 }
